@@ -2087,11 +2087,23 @@ def _compute_event_matching_score(
     if not isinstance(ref_event, type(event)):
         return 0.0
 
-    return _compute_event_comparison_score(state, event, ref_event, flow_state.priority)
+    # The names of the parameters that are written in the statement itself
+    assert isinstance(element.spec, Spec)
+    written_arguments = set(element.spec.arguments or {})
+    for member in element.spec.members or []:
+        written_arguments.update(member["arguments"] or {})
+
+    return _compute_event_comparison_score(
+        state, event, ref_event, flow_state.priority, written_arguments
+    )
 
 
 def _compute_event_comparison_score(
-    state: State, event: Event, ref_event: Event, priority: Optional[float] = None
+    state: State,
+    event: Event,
+    ref_event: Event,
+    priority: Optional[float] = None,
+    written_arguments: Optional[Set[str]] = None,
 ) -> float:
     """Check if the given element matches the given event.
 
@@ -2114,7 +2126,10 @@ def _compute_event_comparison_score(
         and ref_event.name == InternalEvents.START_FLOW
     ):
         match_score = _compute_arguments_dict_matching_score(
-            event.arguments, ref_event.arguments, internal_event_arguments=True
+            event.arguments,
+            ref_event.arguments,
+            internal_event_arguments=True,
+            written_arguments=written_arguments,
         )
 
         if "flow_id" not in ref_event.arguments:
@@ -2144,7 +2159,10 @@ def _compute_event_comparison_score(
             return 0.0
 
         match_score = _compute_arguments_dict_matching_score(
-            event.arguments, ref_event.arguments, internal_event_arguments=True
+            event.arguments,
+            ref_event.arguments,
+            internal_event_arguments=True,
+            written_arguments=written_arguments,
         )
 
         # TODO: Generalize this with mismatch using e.g. the 'not' keyword
@@ -2237,7 +2255,10 @@ def find_all_active_event_matchers(
 
 
 def _compute_arguments_dict_matching_score(
-    args: Any, ref_args: Any, internal_event_arguments: bool = False
+    args: Any,
+    ref_args: Any,
+    internal_event_arguments: bool = False,
+    written_arguments: Optional[Set[str]] = None,
 ) -> float:
     # TODO: Find a better way of passing arguments to distinguish the ones that count for matching
     # internal_event_arguments: args/ref_args are the argument dictionaries of an internal (flow)
@@ -2260,6 +2281,10 @@ def _compute_arguments_dict_matching_score(
             if internal_event_arguments
             else []
         )
+        # A parameter that is written in the statement itself always counts
+        argument_filter = [
+            name for name in argument_filter if name not in (written_arguments or ())
+        ]
         if len(ref_args) > len(args):
             return 0.0
         for val in ref_args.keys():
